@@ -1,75 +1,114 @@
 package mqtt
 
+import (
+	"net"
+
+	"github.com/mochi-mqtt/server/v2/packets"
+)
+
 // C33: concurrent broker operation is free of data races.
 //
 // The scenario runs the goroutines the real broker runs: one connection handler per client (attachClient
-// with its WriteLoop), and one housekeeping goroutine that does what the event loop does on its tickers
-// (publishSysTopics, clearExpiredClients, clearExpiredRetainedMessages, sendDelayedLWT, clearExpiredInflights).
-// The harness only plays the clients (bytes in, bytes out) and starts the housekeeping rounds; it never touches
-// broker memory itself. The engine records every load and store of the interpreted broker code with vector
-// clocks and reports two accesses to the same location, one of them a write, that no synchronisation orders
-// (engine/race.go). The traffic is chosen by the solver: which steps happen, protocol versions, clean start,
-// wills, session expiry; housekeeping rounds run concurrently with the traffic that follows them.
-func VerifC33Scenario() {
+// with its WriteLoop), one housekeeping goroutine doing what the event loop does on its tickers
+// (publishSysTopics, clearExpiredClients, clearExpiredRetainedMessages, sendDelayedLWT, clearExpiredInflights),
+// and the embedding application's goroutine using the inline API. The harness only plays the clients (bytes
+// in) and starts those goroutines; it never touches broker memory itself. The engine records every load and
+// store of the interpreted broker code with vector clocks and reports two accesses to the same location, one
+// of them a write, that no synchronisation orders (engine/race.go).
+//
+// Set-up (sequential): client a (with a delayed will) and client b (persistent, subscribed to t and w) are
+// connected; solver-chosen pre-state: a offline (its delayed will pending), b holding an unacknowledged
+// message, a retained message present. Then ACTS activities chosen by the solver from the menu below are
+// started together and run concurrently under the scheduling budget.
+func VerifC33Pair() {
 	caps := NewDefaultServerCapabilities()
 	caps.MaximumMessageExpiryInterval = 100
-	s, _ := vNewServer(&Options{Capabilities: caps, InlineClient: vParam("INLINE", 0) == 1})
+	s, _ := vNewServer(&Options{Capabilities: caps, InlineClient: true})
 	verA := byte(vConcrete(int(vByteIn("\x04\x05")), 4, 5))
 	verB := byte(vConcrete(int(vByteIn("\x04\x05")), 4, 5))
 	now := vNow()
-	hk := func() {
-		go func() {
-			s.publishSysTopics()
-			s.clearExpiredClients(now + 1000)
-			s.clearExpiredRetainedMessages(now + 1000)
-			s.sendDelayedLWT(now + 1000)
-			s.clearExpiredInflights(now + 1000)
-		}()
-	}
-	a := vDial(s, vConnOpts{ver: verA, id: "a", clean: vBool(), keepalive: 60, will: true, willTopic: "w", willQos: 1, willDelay: 5, seiSet: verA == 5, sei: 30, rm: 5})
-	b := vDial(s, vConnOpts{ver: verB, id: "b", clean: false, keepalive: 60, seiSet: verB == 5, sei: 30, rm: 1})
+	vSchedBudget(0, 0)
+	optsA := vConnOpts{ver: verA, id: "a", clean: false, keepalive: 60, will: true, willTopic: "w", willQos: 1, willDelay: 5, seiSet: verA == 5, sei: 30, rm: 5}
+	optsB := vConnOpts{ver: verB, id: "b", clean: false, keepalive: 60, seiSet: verB == 5, sei: 30, rm: 2}
+	a := vDial(s, optsA)
+	b := vDial(s, optsB)
 	vSend(b, vSubscribeBytes(1, "t", 1, verB))
 	vSend(b, vSubscribeBytes(2, "w", 1, verB))
-	steps := vParam("STEPS", 3)
-	aLive, bLive := true, true
-	for i := 0; i < steps; i++ {
-		if vBool() {
-			hk() // a housekeeping round runs concurrently with the next step
+	aLive := true
+	if vBool() { // b holds an unacknowledged message; a retained message exists
+		vSend(a, vPublishBytes("t", 1, 1, 10, true, verA))
+	}
+	if vBool() { // a is offline, its delayed will pending
+		vHangup(a)
+		aLive = false
+	}
+	hk := func(t int64) {
+		s.publishSysTopics()
+		s.clearExpiredClients(t)
+		s.clearExpiredRetainedMessages(t)
+		s.sendDelayedLWT(t)
+		s.clearExpiredInflights(t)
+	}
+	var late []net.Conn
+	vSchedBudget(vParam("PRE", 0), vParam("SCH", 1))
+	acts := vParam("ACTS", 2)
+	used := map[int]bool{}
+	for i := 0; i < acts; i++ {
+		k := vChoose(13)
+		if used[k] {
+			return // each activity at most once per scenario (symmetry)
 		}
-		switch vChoose(6) {
-		case 0: // a publishes (QoS 1, maybe retained) to b's subscription
+		used[k] = true
+		switch k {
+		case 0:
 			if aLive {
-				vConnFeed(a, vPublishBytes("t", byte(i), 1, uint16(10+i), vBool(), verA))
+				vConnFeed(a, vPublishBytes("t", 2, 1, 11, true, verA))
 			}
-		case 1: // b acknowledges its first message
-			if bLive {
-				vConnFeed(b, []byte{0x40, 2, 0, 1})
+		case 1:
+			vConnFeed(b, []byte{0x40, 2, 0, 1})
+		case 2:
+			vConnFeed(b, vSubscribeBytes(3, "x/#", 1, verB))
+		case 3:
+			ub := vU16b(4)
+			if verB == 5 {
+				ub = append(ub, 0)
 			}
-		case 2: // a's connection is lost (will, session kept or not)
+			ub = append(ub, vStrb("t")...)
+			vConnFeed(b, append([]byte{0xA2, byte(len(ub))}, ub...))
+		case 4:
+			if aLive {
+				vConnFeed(a, vDisconnectBytes(verA, 0, false))
+			}
+		case 5:
 			if aLive {
 				vConnEOF(a)
-				aLive = false
 			}
-		case 3: // b is taken over by a new connection with the same id
-			if bLive {
-				b = vDial(s, vConnOpts{ver: verB, id: "b", clean: false, keepalive: 60, seiSet: verB == 5, sei: 30, rm: 1})
-			}
-		case 4: // b disconnects normally and comes back
-			if bLive {
-				vConnFeed(b, vDisconnectBytes(verB, 0, false))
-				bLive = false
-			} else {
-				b = vDial(s, vConnOpts{ver: verB, id: "b", clean: false, keepalive: 60, seiSet: verB == 5, sei: 30, rm: 1})
-				bLive = true
-			}
-		case 5: // the embedding application publishes
-			if vParam("INLINE", 0) == 1 {
-				_ = s.Publish("t", []byte{9}, false, 1)
-			}
+		case 6: // takeover of b by a new connection
+			c := vConnLive()
+			vConnFeed(c, vConnectBytes(optsB))
+			late = append(late, c)
+			go func() { _ = s.EstablishConnection("t1", c) }()
+		case 7: // a connects again (a takeover if it is live)
+			c := vConnLive()
+			vConnFeed(c, vConnectBytes(optsA))
+			late = append(late, c)
+			go func() { _ = s.EstablishConnection("t1", c) }()
+		case 8:
+			go hk(now + 1000)
+		case 9:
+			go hk(now)
+		case 10:
+			go func() { _ = s.Publish("t", []byte{9}, vBool(), 1) }()
+		case 11:
+			go func() {
+				_ = s.Subscribe("t", 1, func(cl *Client, sub packets.Subscription, pk packets.Packet) {})
+				_ = s.Unsubscribe("t", 1)
+			}()
+		case 12:
+			go func() { _ = s.Close() }()
 		}
-		vDrain()
 	}
-	hk()
 	vDrain()
+	_ = late
 	vReach("end")
 }
